@@ -318,6 +318,7 @@ type Job struct {
 	SameParams bool   // one utils.Params value for history and program
 	Twice      bool   // compile the program itself twice on the instance, keep the second
 	SlowSSA    bool   // the SSA listing goes to a writer that blocks (concurrent cases)
+	CPUs       int    // > 0: the job stands for a compilation on a host with that many CPUs
 	MapSeed    uint64 // child processes: seed of the map-order stream
 }
 
@@ -397,6 +398,10 @@ func RunJob(j Job, keepSSA bool) (a Artefacts) {
 			a.Err = fmt.Sprintf("PANIC: %v", r)
 		}
 	}()
+	if j.CPUs > 0 {
+		rt.SetNumCPU(j.CPUs)
+		defer rt.SetNumCPU(0)
+	}
 	params := newParams(j.Variant)
 	cc := compiler.New(params)
 	// Reuse: history and program on one compiler.Compiler value. Otherwise a
@@ -597,6 +602,10 @@ func (w *world) Run(t *rt.Tape, trace bool) *core.Result {
 			j.SameParams = t.Choose(rt.SGen, 2) == 1
 			j.Twice = t.Choose(rt.SGen, 4) == 0
 		}
+		if t.Choose(rt.SGen, 2) == 0 {
+			// "two parties that compile independently": another host, another CPU count
+			j.CPUs = rt.CPUChoice(t)
+		}
 		if i == nj-1 && t.Choose(rt.SGen, 4) == 0 {
 			inChild[i] = true
 			j.MapSeed = uint64(t.Raw(rt.SGen, nil))<<20 | 1
@@ -611,7 +620,7 @@ func (w *world) Run(t *rt.Tape, trace bool) *core.Result {
 		if tuned > 0 {
 			res.Reach["job.history-with-other-tuning-parameters"]++
 		}
-		smp.Jobs = append(smp.Jobs, fmt.Sprintf("history=%d (with other tuning parameters: %d) reuse-compiler=%v same-params=%v twice=%v separate-process=%v", len(j.History), tuned, j.Reuse, j.SameParams, j.Twice, inChild[i]))
+		smp.Jobs = append(smp.Jobs, fmt.Sprintf("history=%d (with other tuning parameters: %d) reuse-compiler=%v same-params=%v twice=%v separate-process=%v cpus=%d", len(j.History), tuned, j.Reuse, j.SameParams, j.Twice, inChild[i], j.CPUs))
 	}
 	// One case in five: after job 0 ran alone, the other jobs run at the same time in the process
 	// (a server compiling for several sessions, a build tool with a worker per file), each on
@@ -626,6 +635,7 @@ func (w *world) Run(t *rt.Tape, trace bool) *core.Result {
 			if i > 0 {
 				jobs[i].SlowSSA = true
 				jobs[i].SameParams = false
+				jobs[i].CPUs = 0 // one process, one machine
 			}
 		}
 		np := crafted[t.Choose(rt.SGen, len(crafted))]
